@@ -411,7 +411,7 @@ def strategy_for(cls):
     def strat(tier):
         big = tier == "thorough"
         actor = st.integers(0, 5)
-        prio = st.integers(-1, 2)
+        prio = st.sampled_from([-1, 0, 0, 1, 1, 2, 0.5, -0.5, 1.5])
         req = st.tuples(st.just("req"), actor, prio, st.booleans()).map(list)
         cmd = kgen.weighted([
             (req, 8),
